@@ -1120,6 +1120,12 @@ Proof.
   - intros cl2. apply get_missing; [exact Hl|apply live_aset_deleted].
 Qed.
 
+(* forgetting the revision of one document (the tail of discard) leaves the revision recorded for every other
+   document alone - also when one identifier, or its URL, is a prefix of the other *)
+Lemma discard_keeps_other_revisions c (rv : list (string * rev)) i j : i <> j ->
+  sassoc (doc_url c j) (sremove (doc_url c i) rv) = sassoc (doc_url c j) rv.
+Proof. intros H. apply sassoc_remove_other. intros E. apply H. now apply doc_url_inj in E. Qed.
+
 (* identifiers beginning with an underscore cannot be stored: CouchDB reserves such document ids *)
 Lemma reserved_id_rejected c v :
   outcome_of (step c None (init [("_x", v)]) (Add 0)) = OErr (XServer 400).
